@@ -31,21 +31,27 @@ REENTRANT_POSTS = ('post.request_started_by_a_continuation_during_cancellation_s
                    'post.new_session_keeps_a_request_started_by_a_continuation_pending', 'post.final_close_keeps_a_request_started_by_a_continuation_pending')
 
 
+WRONG_SENDER_POSTS = ('post.not_handled_leaves_table_and_completions_unchanged', 'post.request_leaves_the_table_only_by_being_completed_exactly_once',
+                      'post.no_request_taken_out_of_the_table_is_destroyed_unfinished', 'post.handled_iff_response_with_pending_id_from_addressee_or_server')
+DRIVERS = {'reentrant': ('replay_reentrant_cancel.cpp', 'request "first" pending; its continuation calls start("retry", "example.org"); onSessionOpened(smResumed=false)'),
+           'wrong_sender': ('replay_wrong_sender.cpp', 'request (id "req1", addressee "server.example") pending; <iq type="result" id="req1" from="stranger@evil.example/x"/> received')}
+
+
 def find_input(unit, p, o, lab, work):
-    """a failed "request started by a continuation stays pending" obligation has one concrete scenario: the continuation of a
-    cancelled request starts a new one; it is replayed on the real library built from the working tree"""
-    if lab not in REENTRANT_POSTS:
+    """obligations with one canonical concrete scenario are replayed on the real library built from the working tree"""
+    which = 'reentrant' if lab in REENTRANT_POSTS else 'wrong_sender' if (lab in WRONG_SENDER_POSTS and p.id.endswith('handleStanza')) else None
+    if which is None:
         return None
     from vlib import native
-    rc, out = native.run_driver(os.path.join(HERE, 'replay_reentrant_cancel.cpp'))
-    return {'inputs': {'scenario': 'request "first" pending; its continuation calls start("retry", "example.org"); onSessionOpened(smResumed=false)',
-                       'driver': 'units/C07/replay_reentrant_cancel.cpp'},
-            'reproduced': rc == 0, 'native_output': out[-1500:]}
+    drv, scenario = DRIVERS[which]
+    rc, out = native.run_driver(os.path.join(HERE, drv))
+    return {'inputs': {'scenario': scenario, 'driver': 'units/C07/' + drv}, 'reproduced': rc == 0, 'native_output': out[-1500:]}
 
 
 def native_replay(rp):
     from vlib import native
-    rc, out = native.run_driver(os.path.join(HERE, 'replay_reentrant_cancel.cpp'))
+    drv = (rp.get('inputs') or {}).get('driver', 'units/C07/replay_reentrant_cancel.cpp')
+    rc, out = native.run_driver(os.path.join(VERIF, drv))
     return rc == 0, out
 
 
@@ -216,6 +222,7 @@ def build(work, tier):
                     'A-RESETCACHE StreamAckManager::resetCache only runs send continuations (assumed contract in units/C07/model_reset.h; used by the destructor proof only)',
                     'QXmppConfiguration::jidBare() is a pure getter of the configured own bare JID; QXmppUtils::generateStanzaUuid() returns some non-empty string',
                     'continuations run by QXmppPromise::finish are modelled as callbacks that may start one new request (OutgoingIqManager::start, by its verified contract) in cancelAll and, through its contract, in onSessionOpened / onSessionClosed / ~QXmppOutgoingClient / the lemma; in handleStanza, finish and the send continuation they are not modelled (see not_covered)',
+                    'node handles: unordered_map::extract(iterator) moves exactly that element into the handle, which is destroyed (with the IqState and its promise) when the function under contract returns; one handle per call; extract(key) / insert(node) are not modelled (units/C07/model.h)',
                     'A-UMAP-MOVE move construction of the table transfers all elements and leaves the source empty (units/C07/model.h)',
                     'logging (warning()) dropped by the lowering after a purity check of its arguments'],
         'assumes': scan_assumes(rd('model.h') + rd('model_send.h') + rd('model_reenter.h') + rd('lemma.h') + open(os.path.join(QT, 'opaque.h')).read()),
